@@ -683,7 +683,7 @@ func init() {
 			"a second piece of evidence against the same validator in the same block is expected to change nothing (DESIGN: punished exactly once)",
 			"value slashed from a custom-coin stake reaches the total-slashed pool as what the coin's reserve gives up (the Bancor amount itself is C12's subject)",
 		},
-		Quick: 28, Thorough: 840, MinEval: 3000, MinDistinct: 20,
+		Quick: 28, Thorough: 280, MinEval: 3000, MinDistinct: 20,
 		Run: runC18,
 		Post: func(total *WorkerResult) {
 			requireClasses(total, "absent/outside-grace/count-13=>switched-off", "absent/outside-grace/count-12=>stays", "absent/grace/count-13=>switched-off", "absent/grace/count-12=>stays",
